@@ -60,10 +60,10 @@ func init() {
 				add("c03", rep, c03Params{Kind: "first-start", Workers: 3, Cycles: tierPick(tier, 40, 150)}, 600)
 				add("c03", rep, c03Params{Kind: "multishutdown", Workers: 2, Cycles: tierPick(tier, 40, 150)}, 600)
 				add("c03", rep, c03Params{Kind: "directed", Gate: "G7", Workers: 1, Rounds: tierPick(tier, 100, 400)}, 600)
-			// a supervisor re-serving the instant the service is stopped: the returning Serve call of
-			// one run and the starting one of the next overlap
-			add("c03", rep, c03Params{Kind: "immediate-restart", Workers: 2, Cycles: tierPick(tier, 3000, 20000)}, 600)
-			add("c03", rep, c03Params{Kind: "api-while-stopping", Workers: 4, Cycles: tierPick(tier, 20, 60)}, 600)
+				// a supervisor re-serving the instant the service is stopped: the returning Serve call of
+				// one run and the starting one of the next overlap
+				add("c03", rep, c03Params{Kind: "immediate-restart", Workers: 2, Cycles: tierPick(tier, 3000, 20000)}, 600)
+				add("c03", rep, c03Params{Kind: "api-while-stopping", Workers: 4, Cycles: tierPick(tier, 20, 60)}, 600)
 				add("c04", rep, c04Params{Kind: "concurrent", Workers: 8, N: tierPick(tier, 1200, 4000)}, 600)
 				add("c08", rep, c08Params{Kind: "concurrent", Shard: rep, N: tierPick(tier, 1200, 4000)}, 600)
 				add("c11", rep, c11Params{Kind: "concurrent", Store: storeKind{Impl: "badger", Typed: rep%2 == 0, Prefix: "r"}, Histories: tierPick(tier, 6, 20)}, 900)
